@@ -599,3 +599,59 @@ def rule_no_store_before_move(prog, rep, rid='Q3'):
                 rep.violation(rid, f, mv.line, 'store-before-move',
                               '%s stores into %s before the memmove at line %s has read the source: with overlapping arguments (which the '
                               'routine promises to support) the store destroys a source byte that was not moved yet' % (f.name, dst, mv.line))
+
+
+def rule_printf_char_hex(prog, rep, units, rid='PF1'):
+    """`%x`, `%X`, `%o`, `%u` take an unsigned int.  A plain (or signed) char argument is promoted to int first, so a byte >= 0x80
+    is sign-extended and prints as ffffffXX (or is cut to "ff" by a precision/size limit): every such conversion must be fed
+    an unsigned char (or wider unsigned) value."""
+    import re as _re
+    from .frontend import qtype
+    rep.rule(rid, 'the argument of a %x/%X/%o/%u conversion is not a plain or signed char (bytes >= 0x80 would be sign-extended)')
+    fam = {'printf': 0, 'fprintf': 1, 'sprintf': 1, 'snprintf': 2, 'dprintf': 1, '__builtin___snprintf_chk': 4, '__builtin___sprintf_chk': 3,
+           '__snprintf_chk': 4, '__sprintf_chk': 3, '__fprintf_chk': 2, '__printf_chk': 1}
+    for unit in units:
+        prog.unit(unit)
+        for f in sorted(prog.funcs_in(unit), key=lambda x: x.line or 0):
+            if f.body is None:
+                continue
+            for x in walk(f.body):
+                if x.get('kind') != 'CallExpr':
+                    continue
+                nm = prog.callee_name(x)
+                if nm not in fam:
+                    continue
+                args = children(x)[1:]
+                fi = fam[nm]
+                if fi >= len(args):
+                    continue
+                fs = strip(args[fi])
+                if fs.get('kind') != 'StringLiteral':
+                    continue
+                fmt = fs.get('value', '')
+                convs = _re.findall(r'%(?:%|[-+ #0]*(\*|\d+)?(?:\.(\*|\d+))?(hh|h|ll|l|z|j|t|L)?([a-zA-Z]))', fmt)
+                k = fi + 1
+                for (w_, p_, ln_, cv) in convs:
+                    if cv == '':
+                        continue              # %%
+                    if w_ == '*':
+                        k += 1
+                    if p_ == '*':
+                        k += 1
+                    if k >= len(args):
+                        break
+                    a = args[k]
+                    k += 1
+                    if cv not in ('x', 'X', 'o', 'u') or ln_ in ('l', 'll', 'z', 'j', 't'):
+                        continue
+                    e = a
+                    while e.get('kind') in ('ImplicitCastExpr', 'ParenExpr') and e.get('inner'):
+                        e = e['inner'][0]
+                    t = (qtype(e) or '').replace('const ', '').strip()
+                    rep.instance(rid)
+                    ok = t not in ('char', 'signed char', 'int8_t')
+                    rep.oblige(rid, ok, {'function': f.name, 'line': x.get('_line'), 'conversion': '%' + cv, 'argument_type': t})
+                    if not ok:
+                        rep.violation(rid, f, x.get('_line'), 'signed-char-hex',
+                                      '%s: %s is a %s and goes to a %%%s conversion: it is promoted to int with its sign, so a byte >= 0x80 is '
+                                      'printed as ffffff.. (or cut to "ff")' % (f.name, canon(e)[:40], t, cv))
